@@ -182,7 +182,7 @@ MUTATORS = [
     "unique_faces", "nondegenerate_faces", "process", "fix_normals", "fix_winding", "fix_inversion", "fill_holes",
     "convert_units", "edit_vertices", "edit_faces", "assign_vertices", "assign_faces", "density", "center_mass",
     "assign_face_normals", "assign_vertex_normals", "copy", "cache_clear", "reseed", "bad_transform", "bad_mask", "view_write",
-    "subdivide_inplace_like", "remove_degenerate", "remove_duplicate", "smooth", "apply_obb", "update_vertices_inverse", "merge_then_unmerge", "there_and_back",
+    "subdivide_inplace_like", "remove_degenerate", "remove_duplicate", "smooth", "apply_obb", "update_vertices_inverse", "merge_then_unmerge", "there_and_back", "laplacian_operator",
 ]
 EDIT_V_ROUTES = ["item", "row", "slice", "mask", "fancy", "iadd", "isub", "imul", "itruediv", "put", "idiom_col", "idiom_rows", "fill_row", "sort"]
 EDIT_F_ROUTES = ["item", "swap_rows", "flip_row", "roll_row", "slice_assign"]
@@ -296,7 +296,26 @@ class C01(World):
     ]
 
     # ------------------------------------------------------------------ generation
+    # mutators that do nothing on a clean mesh, with the mesh defects that give them work to do
+    PAIRS = [("near_dup", "merge_vertices"), ("dup_vertices", "merge_vertices"), ("unmerged", "merge_vertices"), ("unmerged", "process"), ("near_dup", "process"),
+             ("duplicate_face", "unique_faces"), ("duplicate_face", "remove_duplicate"), ("degenerate_face", "nondegenerate_faces"), ("degenerate_face", "remove_degenerate"),
+             ("flipped_some", "fix_normals"), ("flipped_some", "fix_winding"), ("flipped_some", "fix_inversion"), ("unreferenced", "remove_unreferenced_vertices"),
+             ("unreferenced", "unmerge_vertices"), ("plain", "unmerge_vertices"), ("unmerged", "merge_then_unmerge"), ("unreferenced", "update_vertices")]
+
     def swarm(self, rng):
+        cfg = self._swarm(rng)
+        if rng.random() < 0.25:
+            # a focused run: one defect, the mutator that repairs it made likely, large enough to have more than a few faces
+            variant, mut = rng.choice(self.PAIRS)
+            cfg["mesh"]["variant"] = variant
+            if rng.random() < 0.5:
+                cfg["mesh"]["base"] = rng.choice(["icosa1", "torus", "prism8", "two_boxes"])
+            w = cfg["weights"]
+            w[mut] = 10.0 * max(w.values() or [1.0])
+            cfg["focus"] = [variant, mut]
+        return cfg
+
+    def _swarm(self, rng):
         obs_pool = CHEAP if rng.random() < 0.8 else OBS_NAMES
         k = rng.choice([4, 8, 16, 30, len(obs_pool)])
         return {
@@ -344,7 +363,7 @@ class C01(World):
             if kind == "update_vertices":
                 op["only_unreferenced"] = rng.random() < 0.5
         elif kind == "merge_vertices":
-            op.update({"merge_tex": rng.choice([None, True]), "merge_norm": rng.choice([None, True, False]), "digits_vertex": rng.choice([None, None, 1, 4])})
+            op.update({"merge_tex": rng.choice([None, True]), "merge_norm": rng.choice([None, True, False]), "digits_vertex": rng.choice([None, None, 1, 4, 0, 1])})
         elif kind == "process":
             op.update({"validate": rng.random() < 0.6, "merge_norm": rng.choice([None, True]), "merge_tex": rng.choice([None, True])})
         elif kind in ("fix_normals", "fix_inversion"):
@@ -381,10 +400,30 @@ class C01(World):
             op["shape"] = rng.choice([[3, 3], [4], [2, 4, 4], [4, 3]])
         elif kind == "smooth":
             op["cls"] = rng.choice(["laplacian", "taubin", "humphrey"])
+            op["operator"] = rng.choice([None, None, "equal", "umbrella"])
+            op["pinned"] = rng.choice([0, 0, 1, 3])
+        elif kind == "laplacian_operator":
+            op["operator"] = rng.choice(["equal", "umbrella"])
+            op["pinned"] = rng.choice([0, 1, 3])
         elif kind == "bad_mask":
             op["target"] = rng.choice(["faces", "vertices"])
             op["extra"] = rng.choice([1, 3])
         return op
+
+    @staticmethod
+    def _laplacian(m, op):
+        import trimesh
+
+        n = len(m.vertices)
+        if n == 0 or len(m.faces) == 0:
+            raise Inapplicable()
+        r = np.random.RandomState(int(op.get("salt", 0)) % (2**32))
+        # (only vertices some face refers to are pinned: with equal weights the operator is sized by the largest referenced
+        # index, and pinning beyond it writes coordinates outside the matrix - scipy then corrupts the heap; not a staleness matter)
+        used = np.unique(np.asarray(m.faces))
+        used = used[(used >= 0) & (used < n)]
+        pinned = sorted(int(i) for i in r.choice(used, min(int(op.get("pinned", 0)), len(used)), replace=False)) or None
+        return trimesh.smoothing.laplacian_calculation(m, equal_weight=op.get("operator") != "umbrella", pinned_vertices=pinned)
 
     # ------------------------------------------------------------------ construction
     def _new(self, V, F, cfg, density, center_mass, units):
@@ -676,7 +715,13 @@ class C01(World):
         elif k == "smooth":
             # in-place filters driven by (memoisable) vertex neighbourhoods
             fn = {"laplacian": trimesh.smoothing.filter_laplacian, "taubin": trimesh.smoothing.filter_taubin, "humphrey": trimesh.smoothing.filter_humphrey}[op["cls"]]
-            fn(m, iterations=2)
+            if op.get("operator"):
+                fn(m, iterations=2, laplacian_operator=self._laplacian(m, op))
+            else:
+                fn(m, iterations=2)
+        elif k == "laplacian_operator":
+            # a smoothing operator built for the mesh (with some vertices pinned) and thrown away: the mesh is what it was
+            self._laplacian(m, op)
         elif k == "apply_obb":
             st["obb_" + which] = np.asarray(m.apply_obb())
         elif k == "update_vertices_inverse":
